@@ -1,0 +1,17 @@
+//go:build verif
+
+// Contracts (machine-checked specifications) for the module wiring, read by /verif's govc.
+// This file contains comments only and compiles to nothing with or without the tag.
+
+package orbiter
+
+// ---------------------------------------------------------------------------------------------
+// The authority the message servers check is the configured one (C10)
+// ---------------------------------------------------------------------------------------------
+
+// ProvideModule: the keeper it builds holds, as its authority, exactly the textual form of the address the
+// configured authority string stands for (modOrBech32: the bech32 decoding or the module address of that
+// name, x/auth's NewModuleAddressOrBech32Address) - not any other account's.
+//@ func ProvideModule(in) (out)
+//@   requires[inv] in.Config != nil
+//@   ensures[C10] out.Keeper != nil && out.Keeper.authority == bech32(modOrBech32(in.Config.Authority))
